@@ -173,7 +173,7 @@ def harnesses(tier):
                           'image size': 'symbolic h,w in [1,4096]', 'pixel index / written values': 'symbolic'},
                   functions=fn, stubs=stubs, assumptions=assume, real_replay=real_replay, budget_s=900)]
     if not q:
-        hs.append(Harness('c10.op_sequences.4', mk_scenario(4), bounds={'operations': 4, 'op kinds': 17}, functions=fn, stubs=stubs, assumptions=assume,
+        hs.append(Harness('c10.op_sequences.4', mk_scenario(4, ops=VIEWS + ['copy', 'jpg', 'from_jpg', 'write']), bounds={'operations': 4, 'op kinds': '13 (9 views, copy, jpg, from_jpg undecoded, write pixel)'}, functions=fn, stubs=stubs, assumptions=assume,
                           real_replay=real_replay, budget_s=3000))
     return hs
 
